@@ -347,6 +347,9 @@ func c11Exec(in []string) []string {
 				base := &c11File{name: f.name, c11ReadCloser: c11ReadCloser{c11Reader{data: []byte(f.content), chunk: f.chunking / 2, eofWith: f.chunking%2 == 1}}}
 				if f.hasDecl {
 					files[j] = c11TypedFile{base, f.decl}
+				} else if (len(f.content)+j)%3 == 0 {
+					// the library's own way of naming a reader (runtime.NamedReader): no declared type either
+					files[j] = runtime.NamedReader(f.name, &base.c11ReadCloser)
 				} else {
 					files[j] = base
 				}
